@@ -297,14 +297,37 @@ class Deps:
             if isinstance(stmt, ast.AugAssign):
                 # depends on its previous value too
                 self._name_before(name, stmt, out, seen)
-            # control dependence of the definition
+            # control dependence of the definition (a conditional that
+            # holds the definition and the use in the same branch selects
+            # nothing: the use only exists where the definition ran)
             n = stmt
             while n in self.pm:
                 p = self.pm[n]
-                if isinstance(p, (ast.If, ast.While)) and n is not p.test:
+                if isinstance(p, (ast.If, ast.While)) and n is not p.test \
+                        and not self._same_branch(p, n, use_ids):
                     self._expr(p.test, self._use_ids(p.test) or dids, out,
                                seen)
                 n = p
+
+    def _same_branch(self, cond, child, use_ids):
+        """All uses sit in the branch of `cond` that holds `child`."""
+        if not use_ids or not isinstance(cond, ast.If):
+            return False
+        branch = cond.body if child in cond.body else \
+            cond.orelse if child in cond.orelse else None
+        if branch is None:
+            return False
+        for u in use_ids:
+            a = self.c.nodes[u].ast if u in self.c.nodes else None
+            if a is None:
+                return False
+            while a is not None and a not in branch:
+                if a is cond:
+                    return False
+                a = self.pm.get(a)
+            if a is None:
+                return False
+        return True
 
     def _name_before(self, name, stmt, out, seen):
         dids = self._node_ids(stmt)
